@@ -296,7 +296,7 @@ fn run<T: Sc>(case: &C06Case) -> Check {
     if zero_checked {
         out.class("zero-weight-deletion:checked");
     }
-    out.class(format!("S={}", base.s()));
+    out.class(crate::gen::s_label(base.s()));
     out.class(base.flavour());
     for r in base.regime() {
         out.class(r);
